@@ -51,10 +51,16 @@ func scenarios(tier string) []engine.Scenario {
 		}
 	}
 	sort.SliceStable(items, func(i, j int) bool { return items[i].cost > items[j].cost })
-	items = append(items, item{completenessScenario(), 0})
-	scs := make([]engine.Scenario, len(items))
-	for i := range items {
-		scs[i] = items[i].sc
+	// cheap scenarios first (they are many and cost little: an internal deadline hit by the heavy ones must
+	// not starve them), then the heavy ones in decreasing order of cost (balance over the 16 workers)
+	cut := len(items) / 3
+	var scs []engine.Scenario
+	scs = append(scs, completenessScenario())
+	for _, it := range items[cut:] {
+		scs = append(scs, it.sc)
+	}
+	for _, it := range items[:cut] {
+		scs = append(scs, it.sc)
 	}
 	return scs
 }
@@ -166,7 +172,7 @@ func main() {
 			"A leaf is one call under one (operand kind × aliasing pattern {fresh, out==op_i, op_i==op_j, all equal — those the dynamic types permit} × " +
 			"output history {fresh exact, larger degree, larger level, same shape holding another result, smaller level} × receiver history " +
 			"{new, scratch buffers filled with 2^64-1, scratch buffers filled with a valid-looking pattern, after each other method of the table (quick: its first operand kind; thorough: every kind)}); " +
-			"full product; thorough adds every ordered pair of previous methods for calls deviating in at most one of (aliasing, output history); receivers obtained by ShallowCopy of a new / of a used receiver are further histories. Each leaf also runs the reference execution (new receiver, distinct identical operand copies, fresh zeroed output) under the same PRNG seed. " +
+			"full product; thorough adds every ordered pair of previous methods for every aliasing pattern (not combined with the output histories); receivers obtained by ShallowCopy of a new / of a used receiver are further histories. Each leaf also runs the reference execution (new receiver, distinct identical operand copies, fresh zeroed output) under the same PRNG seed. " +
 			"Oracles: (a) identity snapshot (all words, metadata, big-number words, slice headers) of every argument except the designated output equal before/after; " +
 			"(b,c) canonical result bytes equal to the reference, or an error for aliased / unsuitable-output calls. " +
 			"A state is (scenario, kind, alias, output history, receiver history); distinct_nontrivial counts distinct (scenario, kind, result) classes.",
